@@ -250,8 +250,10 @@ for _fn, _cls in (('send_cmd_recv_rsp', 'RemoteTarget'), ('send_rsp_recv_cmd', '
 import copy as _copy
 from pyvc.contracts import REGISTRY as _REG
 for _c in list(_REG):
-    if _c.prop == 'C13' and not _c.expect_fail and _c.name.endswith('.send_cmd_recv_rsp') and not _c.bounded:
-        for _prop in ('C04', 'C12'):
+    if _c.prop == 'C13' and not _c.expect_fail and _c.name.endswith('.send_cmd_recv_rsp'):
+        # (C16: the tag layers retry and map CommunicationError only - whatever a driver lets escape instead reaches
+        # the application; the bounded udp contract is included there)
+        for _prop in (('C16',) if _c.bounded else ('C04', 'C12', 'C16')):
             _c2 = _copy.copy(_c)
             _c2.prop = _prop
             _c2.name = _prop + '/driver.' + _c.name.split('/', 1)[1]
